@@ -38,7 +38,7 @@ GRun ==
   /\ conn' = EmptyC /\ fail' = EmptyF /\ http' = 0 /\ tcp' = 0 /\ addsC' = EmptyC /\ addsF' = EmptyF
   /\ pc' = "st_state" /\ acc' = Blank /\ wrOk' = TRUE /\ sinceEvent' = 0 /\ sinceClear' = 0
   /\ file' = None /\ tmp' = None /\ lastEv' = NoEvent /\ evIter' = FALSE
-  /\ dirty' = FALSE /\ clearedSincePub' = FALSE /\ crashes' = 0 /\ winAggs' = {}
+  /\ dirty' = FALSE /\ clearedSincePub' = FALSE /\ crashes' = 0 /\ winAggs' = {} /\ prevWrite' = "first"
   /\ blocked' = FALSE /\ pubd' = FALSE /\ running' = TRUE /\ UNCHANGED i
 
 \* the process is replaced; the files stay
